@@ -69,6 +69,11 @@ func (node *tagMacroNode) call(ctx *ExecutionContext, args ...*Value) (*Value, e
 
 	for idx, argValue := range args {
 		macroCtx.Private[node.argsOrder[idx]] = argValue.Interface()
+		if argValue.safe {
+			// markup stays markup (the result of another macro, a value marked
+			// safe), as it does for default values
+			macroCtx.Private[node.argsOrder[idx]] = argValue
+		}
 	}
 
 	var b bytes.Buffer
